@@ -74,6 +74,17 @@ def rbytes(rng, n):
     return bytes(rng.getrandbits(8) for _ in range(n))
 
 
+_sampled = set()
+
+
+def samp(key, cond, d):
+    """one written-out sample per scenario type and shard"""
+    if cond and key not in _sampled:
+        _sampled.add(key)
+        return d
+    return None
+
+
 # --------------------------------------------------------------------------
 # oracles
 # --------------------------------------------------------------------------
@@ -174,8 +185,9 @@ def public_roundtrip(ctx, fam):
                  ("class(data=b64decode(get_base64()))", lambda: cls(data=base64.b64decode(b64)))]
         for cname, ctor in ctors:
             ctx.case(("pub", fam.kind, origin, cname, fam.blob),
-                     sample=dict(scenario="public round trip", kind=fam.kind, family=fam.label, origin=origin,
-                                 constructor=cname, blob=blob) if cname == "from_type_string" and origin.startswith("private") else None)
+                     sample=samp("pub", cname == "from_type_string" and origin.startswith("private"),
+                                 dict(scenario="public round trip", kind=fam.kind, family=fam.label, origin=origin,
+                                      constructor=cname, blob=blob)))
             ctx.count("public_roundtrips")
             try:
                 back = ctor()
@@ -207,8 +219,9 @@ def equality_matrix(ctx, fams):
         for i in range(len(objs)):
             for j in range(i + 1, len(objs)):
                 ctx.case(("eq", fam.kind, objs[i][0], objs[j][0], fam.blob),
-                         sample=dict(scenario="equality within one key", kind=fam.kind, family=fam.label,
-                                     a=objs[i][0], b=objs[j][0]) if "cert" in objs[j][0] and i == 0 else None)
+                         sample=samp("eq", "cert" in objs[j][0] and i == 0,
+                                     dict(scenario="equality within one key", kind=fam.kind, family=fam.label,
+                                          a=objs[i][0], b=objs[j][0])))
                 same_key(ctx, fam, objs[i][1], objs[j][1], "equality", dict(a=objs[i][0], b=objs[j][0]))
         d = {}
         for o, k in objs:
@@ -319,9 +332,9 @@ def private_roundtrip_file(ctx, fam, origin, key, pw, umask, tmpdir, preexisting
         events = w.disarm()
         os.umask(old)
     ctx.case(("priv-file", fam.kind, origin, pw_class(pw), umask, preexisting, fam.blob),
-             sample=dict(scenario="private file round trip", kind=fam.kind, family=fam.label, origin=origin,
-                         passphrase=pw_class(pw), umask=oct(umask), preexisting=preexisting,
-                         events=events) if pw is not None and preexisting is None and umask == 0 else None)
+             sample=samp("priv", pw is not None and preexisting is None and umask == 0,
+                         dict(scenario="private file round trip", kind=fam.kind, family=fam.label, origin=origin,
+                              passphrase=pw_class(pw), umask=oct(umask), preexisting=preexisting, events=events)))
     ctx.count("private_file_writes")
     if preexisting is None:
         if os.path.lexists(path):
@@ -539,8 +552,8 @@ def cert_checks(ctx, fams):
         cpath = ko.bundled_path(rel)
         plain = dict(fam.objs)["private-file"]
         for form, val in (("path", cpath), ("string", open(cpath).read()), ("message", Message(fam.cert_blob))):
-            ctx.case(("cert", fam.kind, form), sample=dict(scenario="certificate-bearing object", kind=fam.kind, form=form)
-                     if form == "string" else None)
+            ctx.case(("cert", fam.kind, form),
+                     sample=samp("cert", form == "string", dict(scenario="certificate-bearing object", kind=fam.kind, form=form)))
             ctx.count("cert_loads")
             k = ko.key_class(fam.kind)(data=fam.blob)
             try:
@@ -572,7 +585,7 @@ def run(ctx):
         equality_matrix(ctx, fams)
         cert_checks(ctx, fams)
         umasks = [0, 0o022, 0o077, 0o002, 0o027]
-        deadline = ctx.deadline(120, 1100)
+        deadline = ctx.deadline(120, 420)
         for fam in fams:
             if time.time() > deadline:
                 ctx.count("families_cut_by_time")
